@@ -2076,6 +2076,29 @@ class SelectOnExpression(Base):
       s.q @= (s.a if s.en else s.b)[3]
 
 
+@design(lambda st, a, b, sel, en, reset: (None, {"o": a, "p": b & 0x3F, "q": a & 0x0F}))
+class LoopBoundExpression(Base):
+  """loop bounds that are operations on constants (the bound is an operand of the comparison in the emitted for statement)"""
+  def construct(s):
+    s.ports()
+    s.o = OutPort(Bits8)
+    s.p = OutPort(Bits8)
+    s.q = OutPort(Bits8)
+    NA, NB = 12, 10
+
+    @update
+    def up_lbe():
+      s.o @= 0
+      s.p @= 0
+      s.q @= 0
+      for i in range(NA & NB):            # 8
+        s.o[i] @= s.a[i]
+      for i in range(NA ^ NB):            # 6
+        s.p[i] @= s.b[i]
+      for i in range(NB - NA + 6):        # 4
+        s.q[i] @= s.a[i]
+
+
 def sequences():
   """input sequences (lists of dicts): one long deterministic walk covering every (sel, en) with varied a, b; reset pulses inside"""
   A = (0, 1, 0x5A, 0xFF, 0x80, 0x0F, 0x37)
